@@ -269,12 +269,24 @@ func C16(op Opts) *Out {
 			if _, err := masswallet.PayToWitnessV0Address(saddr.EncodeAddress(), config.ChainParams); err == nil {
 				o.Add(saddr.EncodeAddress(), "PayToWitnessV0Address accepts a staking address", "builder")
 			}
-			for _, f := range []uint64{minF, minF + 1, 1 << 20, 0xffffffff, maxF} {
+			for _, f := range []uint64{0, 1, minF - 1, minF, minF + 1, 1 << 20, 0xffffffff, maxF} {
 				o.Evaluations++
 				o.Families["builders"]++
 				amt, _ := massutil.NewAmountFromInt(100000000)
 				mtx := wire.NewMsgTx()
 				err := masswallet.VerifConstructStakingTxOut([]*masswallet.StakingTxOut{{Address: saddr.EncodeAddress(), FrozenPeriod: uint32(f), Amount: amt}}, mtx)
+				if f < minF {
+					// below the consensus minimum: refuse, or at least never build ANOTHER period
+					// than the one asked for
+					if err == nil {
+						if ps, perr := utils.ParsePkScript(mtx.TxOut[0].PkScript, config.ChainParams); perr != nil || ps.Maturity() != f+1 {
+							o.Add(fmt.Sprintf("%s/%d", saddr.EncodeAddress(), f), "staking builder was asked for a frozen period below the consensus minimum and built a script with a different period", "builder")
+						} else {
+							o.Add(fmt.Sprintf("%s/%d", saddr.EncodeAddress(), f), "staking builder accepts a frozen period below the consensus minimum", "builder")
+						}
+					}
+					continue
+				}
 				if f > maxF {
 					if err == nil {
 						o.Add(fmt.Sprintf("%s/%d", saddr.EncodeAddress(), f), "staking builder accepts a frozen period above the consensus maximum", "builder")
